@@ -25,6 +25,29 @@ CHECKS = {
         note=COMMON_NOTE + 'Modelled, not verified: EvolutionGraph key construction from evolution modules, Django migration plans.'),
 }
 
+CHECKS['C11'] = dict(
+    technique='Lean 4 proof (invariant preservation per mutation) + differential correspondence of simulate()',
+    text=('Invariant RefsOK (every related_model names an existing model or an explicitly deleted one) proved to be '
+          'preserved by ChangeField/DeleteField/RenameField/ChangeMeta, by RenameModel (all references rewritten, '
+          'prefix names safe) and by DeleteModel (with the deletion exemption) for every signature with unique keys; '
+          'proved counterexamples for RenameAppLabel (F12) and the theorem for the repaired reference rewrite. The '
+          'simulate() model is tied to the real mutation classes by differential correspondence on relation-rich '
+          'two-app signatures; dangling-reference oracle on real signatures and foreign-key oracle on the real SQLite '
+          'database after renames.'),
+    design='§5 C11',
+    note=COMMON_NOTE + 'Database side (SQLite rewriting FK text on RENAME) is observed, not proved. AddField may introduce a reference to a missing model (outside the property).')
+CHECKS['C12'] = dict(
+    technique='Lean 4 proof over translated control skeletons (monitor analysis proved sound) + simulate preconditions + command-level oracle',
+    text=('The control flow of Command.handle/_check_simulation is translated from source into a small IR on every run; '
+          'a monitor analysis, proved sound once for all IR terms (reach_sound: any branch, any loop count, a fault in '
+          'any call), is evaluated by the kernel on the generated terms: _perform_evolution is reachable only after '
+          '_check_simulation returned normally, which happens only with an empty residual diff or can_simulate=False. '
+          'Preconditions of simulate (existing field, missing app/model/field, primary-key delete, non-null without '
+          'initial) proved for every signature. Oracle: perturbed evolutions through the real `evolve --execute '
+          '--noinput`, zero writes and identical snapshot on rejection.'),
+    design='§5 C12',
+    note=COMMON_NOTE + 'Calls named in PURE_CALLS of the translator are assumed effect-free. The can_simulate=False bypass is part of the statement.')
+
 NOT_YET = {}
 
 
